@@ -19,6 +19,9 @@ workers, and every placement of `Stop` and of the ctx cancellations.
 * the run-time oracle: `spec_caller_of_returned`, `spec_of_final` — the Bool predicate of
   `Spec/C14.lean`, which the driver evaluates on the implementation's observation, holds of the
   model's observation;
+* trace validation (code instrumented with the `verif` hooks): `trace_sound` — a log of hook events
+  accepted by the driver's `traceOk` is a run of the model, so every safety invariant holds of the
+  abstracted real state at every hook point;
 * the pre-fix variant: `stuck_reachable_old`.
 
 Full statement of the property vs. what is proved: "RunJobs returns" is proved as
@@ -211,6 +214,37 @@ theorem spec_of_final {cfg : Cfg} (hfix : cfg.fixed = true) (hmax : 1 ≤ cfg.ma
     spec { workers := cfg.maxWorkers, quiet := false, noStop := false } (observe cfg s mc) = true :=
   spec_of_final_aux hfix hmax h hq hst mc hmc
 
+/-! ### trace validation (instrumented code) -/
+
+/-- TRACE SOUNDNESS.  If the driver's trace check `traceOk` accepts a recorded log of hook events
+(in the admissible reordering `order`), then the log is a run of the model: after EVERY event — i.e.
+at every instrumentation point the real run went through — the model state the events lead to is
+reachable, hence satisfies all the safety invariants of this file (exactly-once bookkeeping,
+WaitGroup accounting, concurrency bound).  Together with `Spec.C14.interp` (each event reports the
+OUTCOME of the real step: select branch taken, channel full or not, number of results taken, group of
+the item received, new vs. reused worker, and the replay fails if the model disagrees) this makes the
+model state after a prefix the abstraction of the real state at that hook point. -/
+theorem trace_sound {cfg : Cfg} {evs : Array Ev} {order : List Nat} (h : traceOk cfg evs order = true) :
+    ∃ t, replay cfg evs { s := init cfg } order = some t ∧ Reach cfg t.s ∧
+      ∀ k, ∃ tk, replay cfg evs { s := init cfg } (order.take k) = some tk ∧ Reach cfg tk.s ∧
+        tk.s.delivered.Nodup ∧ (∀ j ∈ tk.s.delivered, j ∈ tk.s.accepted) ∧
+        (∀ g, (tk.s.callers g).wait + tk.s.delivered.countP (isGrp g) =
+          tk.s.accepted.countP (isGrp g) + (if (tk.s.callers g).sub.inDo then 1 else 0)) ∧
+        tk.s.panicked = false ∧ tk.s.wRun.length ≤ cfg.maxWorkers ∧ tk.s.dropped = 0 := by
+  unfold traceOk at h
+  simp only [Bool.and_eq_true] at h
+  cases hr : replay cfg evs { s := init cfg } order with
+  | none => simp [hr] at h
+  | some t =>
+    have h0 : Reach cfg ({ s := init cfg } : TState).s := Reach.init
+    refine ⟨t, rfl, replay_reach h0 hr, ?_⟩
+    intro k
+    obtain ⟨tk, htk⟩ := replay_take hr k
+    have hk := replay_reach h0 htk
+    exact ⟨tk, htk, hk, delivered_at_most_once hk, fun j hj => (delivered_only_accepted hk j hj).1,
+      wait_eq_accepted_minus_delivered hk, waitgroup_never_negative hk, (workers_le_max hk).1,
+      (workers_le_max hk).2.2.2⟩
+
 /-! ### the pre-fix variant gets stuck -/
 
 /-- STUCK STATE REACHABLE in the code before "fix: worker group: a job handed over while Stop runs is
@@ -298,6 +332,20 @@ example :
     let c := observeCaller { cfgOne with panics := fun _ => true } finalOne 0
     c.panicked = [0] ∧ c.errDelivered = [0] ∧ c.delivered = [0] ∧
     callerOk { workers := 1, quiet := false, noStop := false } c = true := by decide
+
+/-- `trace_sound` is not vacuous: the log of a run in which one job is accepted, executed and delivered
+(in the order the hooks would report it, the result's store logged before the worker's own `ran`
+event is not needed here) is accepted -/
+example :
+    let evs : Array Ev := #[⟨"rj.start", 0, 1, 0⟩, ⟨"rj.add", 0, 0, 0⟩, ⟨"do.ctxok", 0, 0, 0⟩, ⟨"do.rlock", 0, 0, 0⟩,
+      ⟨"do.open", 0, 0, 0⟩, ⟨"do.sent", 0, 0, 0⟩, ⟨"do.runlocked", 0, 0, 0⟩, ⟨"rq.recv", 0, 0, 0⟩, ⟨"rq.added", 0, 0, 0⟩,
+      ⟨"rq.notified", 0, 0, 0⟩, ⟨"rp.notify", 0, 0, 0⟩, ⟨"pq.nonempty", 0, 0, 0⟩, ⟨"pq.popped", 0, 0, 0⟩, ⟨"dj.new", 0, 0, 1⟩,
+      ⟨"wk.ctxok", 0, 0, 0⟩, ⟨"wk.ran", 0, 0, 0⟩, ⟨"sr.notified", 0, 0, 0⟩, ⟨"wk.put", 0, 0, 0⟩, ⟨"rd.notify", 0, 0, 0⟩,
+      ⟨"res.take", 0, 1, 0⟩, ⟨"rd.done", 0, 1, 0⟩, ⟨"rd.batchend", 0, 0, 0⟩, ⟨"rj.loopend", 0, 0, 0⟩, ⟨"rj.waited", 0, 0, 0⟩]
+    traceOk cfgOne evs (List.range evs.size) = true ∧
+    -- the same log with the events of the reader moved before the worker stored the result is rejected
+    traceOk cfgOne (evs.swap 16 18) (List.range evs.size) = false := by
+  decide
 
 /-- the pre-fix witness is an actual schedule of the model -/
 example : (runSched cfgOld (init cfgOld) schedOld).isSome = true := by decide
